@@ -65,7 +65,17 @@ func c06Materialize(wd string, f map[string]interface{}, n int) string {
 	i1 := ""
 	var i1inc []string
 	if b("n1from1") {
-		i1inc = append(i1inc, "  - nested/compose.yaml\n")
+		e := "  - nested/compose.yaml\n"
+		if b("efn") || b("pdn") {
+			e = "  - path: nested/compose.yaml\n"
+			if b("pdn") {
+				e += "    project_directory: nested\n"
+			}
+			if b("efn") {
+				e += "    env_file: nested.env\n"
+			}
+		}
+		i1inc = append(i1inc, e)
 	}
 	if cycle == "i1-i1" {
 		i1inc = append(i1inc, "  - compose.yaml\n")
@@ -105,6 +115,10 @@ func c06Materialize(wd string, f map[string]interface{}, n int) string {
 	}
 	n1 += "services:\n  sn: " + c06Svc + "\nvolumes:\n  vn: {labels: {v: \"${V:-none}\"}}\n"
 	c06Write(wd, "inc1/nested/compose.yaml", n1)
+	c06Write(wd, "inc1/nested.env", "V=nestedcustom\n")
+	if b("dotenvn") {
+		c06Write(wd, "inc1/nested/.env", "V=nestedenv\n")
+	}
 	return main
 }
 
